@@ -1,14 +1,224 @@
 (* C04: a Fingerprinter object's result does not depend on its history, as long as molecule objects are not mutated
-   in place between runs (then molecule-level tables cached by identity would be stale: see the refuted statement). *)
+   in place between runs (then molecule-level tables cached by identity would be stale: see the refuted statement).
+
+   The object model (Model/Fprinter.v) keeps the conformer-level state explicitly: the dictionary `level_shells`,
+   `past_substructs`, `current_level`.  History independence is therefore NOT true by the shape of the model: it holds
+   because reset_conf() empties the dictionary before the iteration writes levels 0..k into it (`store_fresh`,
+   `frun_levels_exact`); the variant that skips that clearing is refuted (`stale_levels_without_reset`). *)
 From Coq Require Import QArith.
-From E3FP Require Import Base.Prelude Model.Geometry Model.Stereo Model.Fprint Model.E3FP Model.Fprinter.
+From E3FP Require Import Base.Prelude Base.ZSet Base.Murmur3 Model.Geometry Model.Stereo Model.Fprint Model.E3FP Gen.Constants
+  Gen.AngleTable Proofs.E3FPIter Proofs.E3FPIterRun.
+From E3FP Require Import Model.Fprinter.
 Open Scope Z_scope.
+
+(* ---- the dictionary ------------------------------------------------------------------------------------------ *)
+Fixpoint zseq (l : Z) (n : nat) : list Z := match n with O => [] | S n' => l :: zseq (l + 1) n' end.
+
+Section DictLemmas.
+Context {A : Type}.
+Implicit Types (d : list (Z * A)) (vs : list A).
+
+Lemma dget_dset k j (v : A) d : dget j (dset k v d) = if j =? k then Some v else dget j d.
+Proof.
+  induction d as [|[k' v'] t IH]; simpl.
+  - reflexivity.
+  - destruct (k =? k') eqn:E; simpl.
+    + apply Z.eqb_eq in E. subst k'. destruct (j =? k); reflexivity.
+    + rewrite IH. destruct (j =? k') eqn:E1; [|reflexivity].
+      destruct (j =? k) eqn:E2; [|reflexivity]. apply Z.eqb_eq in E1, E2. apply Z.eqb_neq in E. congruence.
+Qed.
+
+Lemma dset_fresh k (v : A) d : dget k d = None -> dset k v d = d ++ [(k, v)].
+Proof.
+  induction d as [|[k' v'] t IH]; simpl; intro H; [reflexivity|].
+  destruct (k =? k'); [discriminate|]. rewrite IH by exact H. reflexivity.
+Qed.
+
+Lemma dget_app_none j d d' : dget j d = None -> dget j (d ++ d') = dget j d'.
+Proof.
+  induction d as [|[k' v'] t IH]; simpl; intro H; [reflexivity|].
+  destruct (j =? k'); [discriminate|]. apply IH. exact H.
+Qed.
+
+(* writing l, l+1, ... into a dictionary that has no key >= l appends exactly these entries *)
+Lemma dset_from_fresh vs : forall l d, (forall j, l <= j -> dget j d = None) -> dset_from l vs d = d ++ enum_from l vs.
+Proof.
+  induction vs as [|v t IH]; intros l d H; simpl; [rewrite app_nil_r; reflexivity|].
+  rewrite dset_fresh by (apply H; lia). rewrite IH.
+  - rewrite <- app_assoc. reflexivity.
+  - intros j Hj. rewrite dget_app_none by (apply H; lia). simpl.
+    destruct (j =? l) eqn:E; [apply Z.eqb_eq in E; lia | reflexivity].
+Qed.
+
+Lemma dset_from_empty vs l : dset_from l vs ([] : list (Z * A)) = enum_from l vs.
+Proof. apply (dset_from_fresh vs l []). reflexivity. Qed.
+
+Lemma dget_enum_from vs : forall l j, dget j (enum_from l vs) = if l <=? j then nth_error vs (Z.to_nat (j - l)) else None.
+Proof.
+  induction vs as [|v t IH]; intros l j; simpl.
+  - destruct (l <=? j); [destruct (Z.to_nat (j - l)); reflexivity | reflexivity].
+  - destruct (j =? l) eqn:E.
+    + apply Z.eqb_eq in E. subst j. rewrite Z.leb_refl, Z.sub_diag. reflexivity.
+    + apply Z.eqb_neq in E. rewrite IH.
+      destruct (l <=? j) eqn:E1; destruct (l + 1 <=? j) eqn:E2;
+        try apply Z.leb_le in E1; try apply Z.leb_le in E2; try apply Z.leb_gt in E1; try apply Z.leb_gt in E2; try lia; [|reflexivity].
+      replace (Z.to_nat (j - l)) with (S (Z.to_nat (j - (l + 1)))) by lia. reflexivity.
+Qed.
+
+Lemma keys_enum_from vs : forall l, map fst (enum_from l vs) = zseq l (length vs).
+Proof. induction vs as [|v t IH]; intro l; simpl; [reflexivity|]. rewrite IH. reflexivity. Qed.
+
+(* the dictionary keeps stale keys: a write does not remove any *)
+Lemma dget_dset_from_stale vs : forall l d j, j < l -> dget j (dset_from l vs d) = dget j d.
+Proof.
+  induction vs as [|v t IH]; intros l d j H; simpl; [reflexivity|].
+  rewrite IH by lia. rewrite dget_dset. destruct (j =? l) eqn:E; [apply Z.eqb_eq in E; lia | reflexivity].
+Qed.
+
+Lemma dget_dset_from_beyond vs : forall l d j, l + Z.of_nat (length vs) <= j -> dget j (dset_from l vs d) = dget j d.
+Proof.
+  induction vs as [|v t IH]; intros l d j H; simpl in *; [reflexivity|].
+  rewrite IH by lia. rewrite dget_dset. destruct (j =? l) eqn:E; [apply Z.eqb_eq in E; lia | reflexivity].
+Qed.
+End DictLemmas.
 
 Section History.
 Variable D : ringdict.
 Variable C : sconsts.
 Variable fuel : nat.
 
+(* ---- what one iteration leaves in an EMPTY dictionary --------------------------------------------------------- *)
+Lemma store_fresh (st : state) : store st [] = enum_from 0 (rev (st_shells st)).
+Proof. unfold store. apply dset_from_empty. Qed.
+
+(* ... and in a dictionary that was not emptied: keys beyond the level reached survive *)
+Lemma store_keeps_stale (st : state) d j :
+  Z.of_nat (length (st_shells st)) <= j -> dget j (store st d) = dget j d.
+Proof. intro H. unfold store. apply dget_dset_from_beyond. rewrite rev_length. lia. Qed.
+
+Definition shaped (st : state) : Prop := 0 <= st_k st /\ length (st_shells st) = S (Z.to_nat (st_k st)).
+
+Lemma run_shaped o m st : run D C fuel o m = Ok st -> shaped st.
+Proof. intro H. destruct (run_state_shape D C fuel o m st H) as (H1 & H2 & _). split; assumption. Qed.
+
+Lemma dget_store_fresh st l : shaped st ->
+  dget l (store st []) = if (0 <=? l) && (l <=? st_k st) then Some (shells_at_true st l) else None.
+Proof.
+  intros [Hk Hl]. rewrite store_fresh, dget_enum_from. unfold shells_at_true.
+  destruct (0 <=? l) eqn:E0; simpl; [|reflexivity]. apply Z.leb_le in E0. rewrite Z.sub_0_r.
+  destruct (l <=? st_k st) eqn:E1.
+  - apply Z.leb_le in E1.
+    assert (Hlt : (Z.to_nat l < length (rev (st_shells st)))%nat) by (rewrite rev_length, Hl; lia).
+    rewrite (nth_error_nth' _ [] Hlt). f_equal.
+    rewrite rev_nth by (rewrite Hl; lia). f_equal. rewrite Hl. lia.
+  - apply Z.leb_gt in E1. apply nth_error_None. rewrite rev_length, Hl. lia.
+Qed.
+
+Lemma keys_store_fresh st : shaped st -> map fst (store st []) = zseq 0 (S (Z.to_nat (st_k st))).
+Proof. intros [_ Hl]. rewrite store_fresh, keys_enum_from, rev_length, Hl. reflexivity. Qed.
+
+(* the object holds exactly the outcome of a run on an emptied conformer-level state *)
+Definition holds_run (f : fprinter D) (st : state) : Prop :=
+  f_level_shells D f = store st [] /\ f_past D f = st_past st /\ f_cur D f = Some (st_k st) /\ f_exn D f = None /\ shaped st.
+
+Lemma frun_opts (f : fprinter D) id m : f_opts D (frun D C fuel f id m) = f_opts D f.
+Proof.
+  unfold frun, iterate_conf. destruct (same_mol D f id); simpl.
+  - destruct (f_tables D f); simpl; [|reflexivity]. destruct (run D C fuel (f_opts D f) _); reflexivity.
+  - destruct (run D C fuel (f_opts D f) _); reflexivity.
+Qed.
+
+(* every run() that returns normally, from ANY previous object state (stale dictionary entries included) *)
+Lemma frun_ok (f : fprinter D) id m :
+  f_exn D (frun D C fuel f id m) = None ->
+  exists base st, f_tables D (frun D C fuel f id m) = Some base /\
+                  run D C fuel (f_opts D f) (with_positions D base m) = Ok st /\
+                  holds_run (frun D C fuel f id m) st.
+Proof.
+  unfold frun, iterate_conf.
+  destruct (same_mol D f id); simpl.
+  - destruct (f_tables D f) as [base|]; simpl; [|discriminate].
+    destruct (run D C fuel (f_opts D f) (with_positions D base m)) as [st|e] eqn:R; simpl; [|discriminate].
+    intros _. exists base, st. destruct (run_shaped _ _ _ R) as [S1 S2]. split; [reflexivity|]. split; [exact R|]. unfold holds_run, shaped; simpl. repeat split; solve [reflexivity | assumption].
+  - destruct (run D C fuel (f_opts D f) (with_positions D m m)) as [st|e] eqn:R; simpl; [|discriminate].
+    intros _. exists m, st. destruct (run_shaped _ _ _ R) as [S1 S2]. split; [reflexivity|]. split; [exact R|]. unfold holds_run, shaped; simpl. repeat split; solve [reflexivity | assumption].
+Qed.
+
+Lemma holds_levels_exact f st : holds_run f st ->
+  map fst (f_level_shells D f) = zseq 0 (S (Z.to_nat (st_k st))) /\
+  (forall l, dget l (f_level_shells D f) = if (0 <=? l) && (l <=? st_k st) then Some (shells_at_true st l) else None) /\
+  f_cur D f = Some (st_k st) /\ f_past D f = st_past st.
+Proof.
+  intros (H1 & H2 & H3 & _ & Hs). rewrite H1. repeat split.
+  - apply keys_store_fresh; exact Hs.
+  - intro l. apply dget_store_fresh; exact Hs.
+  - exact H3.
+  - exact H2.
+Qed.
+
+Theorem frun_levels_exact (f : fprinter D) id m :
+  f_exn D (frun D C fuel f id m) = None ->
+  exists base st, f_tables D (frun D C fuel f id m) = Some base /\
+    run D C fuel (f_opts D f) (with_positions D base m) = Ok st /\
+    map fst (f_level_shells D (frun D C fuel f id m)) = zseq 0 (S (Z.to_nat (st_k st))) /\
+    (forall l, dget l (f_level_shells D (frun D C fuel f id m))
+               = if (0 <=? l) && (l <=? st_k st) then Some (shells_at_true st l) else None) /\
+    f_cur D (frun D C fuel f id m) = Some (st_k st) /\ f_past D (frun D C fuel f id m) = st_past st.
+Proof.
+  intro H. destruct (frun_ok f id m H) as (base & st & Ht & Hr & Hh). exists base, st.
+  split; [exact Ht|]. split; [exact Hr|]. apply holds_levels_exact. exact Hh.
+Qed.
+
+(* ---- the dictionary-based query is the range-based query of Model/E3FP.v -------------------------------------- *)
+Lemma holds_query f st counts bits req mask : holds_run f st ->
+  fquery D f counts bits req mask = fingerprint_query (f_opts D f) counts bits st req mask.
+Proof.
+  intro Hh. destruct (holds_levels_exact f st Hh) as (Hkeys & Hget & Hcur & _).
+  destruct Hh as (_ & _ & _ & _ & Hk & Hl).
+  assert (Hne : exists x t, f_level_shells D f = x :: t).
+  { destruct (f_level_shells D f) as [|x t]; [simpl in Hkeys; discriminate|]. exists x, t. reflexivity. }
+  assert (Hcurget : dget (st_k st) (f_level_shells D f) = Some (shells_at_true st (st_k st))).
+  { rewrite Hget. replace (0 <=? st_k st) with true by (symmetry; apply Z.leb_le; lia). rewrite Z.leb_refl. reflexivity. }
+  assert (Hvia : forall (r : option Z) (unres : bool),
+    unres = true ->
+    fquery D f counts bits r mask
+    = rbind (match f_level_shells D f with
+             | [] => Raises EIndex
+             | _ :: _ => match f_cur D f with
+                         | Some c => match dget c (f_level_shells D f) with Some s => Ok s | None => Raises EKey end
+                         | None => Raises EKey end end)
+        (fun shells => rbind (if counts then mk_count_from_indices KCount (map (fun s => unsigned32 (s_ident s)) (filter (fun s => disjointb (s_sub s) mask) shells)) fprinter_bits r None
+                              else mk_bit (map (fun s => unsigned32 (s_ident s)) (filter (fun s => disjointb (s_sub s) mask) shells)) fprinter_bits r None)
+                             (fun x => fp_fold x bits 0)) ->
+    fquery D f counts bits r mask
+    = rbind (if counts then mk_count_from_indices KCount (map (fun s => unsigned32 (s_ident s)) (filter (fun s => disjointb (s_sub s) mask) (shells_at_true st (st_k st)))) fprinter_bits r None
+             else mk_bit (map (fun s => unsigned32 (s_ident s)) (filter (fun s => disjointb (s_sub s) mask) (shells_at_true st (st_k st)))) fprinter_bits r None)
+            (fun x => fp_fold x bits 0)).
+  { intros r unres _ E. rewrite E. destruct Hne as (x & t & Ex). rewrite Ex at 1. rewrite Hcur, Hcurget. reflexivity. }
+  unfold fingerprint_query, shells_query, resolve_level.
+  destruct req as [l|].
+  - destruct (l =? -1) eqn:Em1.
+    + simpl. apply (Hvia (Some l) true eq_refl). unfold fquery, fshells. rewrite Em1. reflexivity.
+    + simpl orb. unfold fquery, fshells, dmem. rewrite Em1, Hget. simpl orb.
+      destruct ((0 <=? l) && (l <=? st_k st)) eqn:Er; simpl.
+      * reflexivity.
+      * destruct Hne as (x & t & Ex). rewrite Ex at 1. rewrite Hcur, Hcurget. reflexivity.
+  - simpl. apply (Hvia None true eq_refl). reflexivity.
+Qed.
+
+Theorem fquery_eq_fingerprint_query (f : fprinter D) id m :
+  f_exn D (frun D C fuel f id m) = None ->
+  exists base st, f_tables D (frun D C fuel f id m) = Some base /\
+    run D C fuel (f_opts D f) (with_positions D base m) = Ok st /\
+    forall counts bits req mask,
+      fquery D (frun D C fuel f id m) counts bits req mask = fingerprint_query (f_opts D f) counts bits st req mask.
+Proof.
+  intro H. destruct (frun_ok f id m H) as (base & st & Ht & Hr & Hh). exists base, st.
+  split; [exact Ht|]. split; [exact Hr|]. intros counts bits req mask.
+  rewrite (holds_query _ st counts bits req mask Hh), frun_opts. reflexivity.
+Qed.
+
+(* ---- molecule-level tables: identity-keyed cache --------------------------------------------------------------- *)
 Definition akey (x : atom D) := (a_idx D x, a_num D x, a_deg D x, a_tdeg D x, a_tval D x, a_nh D x, a_mass D x, a_charge D x, a_ring D x, a_dmass D x).
 
 Definition wf_mol (m : mol D) : Prop := NoDup (map (a_idx D) (m_atoms D m)).
@@ -55,28 +265,37 @@ Qed.
 Definition consistent (h : list (Z * mol D)) : Prop :=
   (forall i m m', In (i, m) h -> In (i, m') h -> same_topology D m m') /\ (forall i m, In (i, m) h -> wf_mol m).
 
+(* the cached tables are those of the molecule whose identity the object holds *)
 Definition Inv (h : list (Z * mol D)) (f : fprinter D) : Prop :=
   match f_mol D f with
   | None => True
-  | Some (i, b) => forall m, In (i, m) h -> same_topology D b m
+  | Some i => exists b, f_tables D f = Some b /\ forall m, In (i, m) h -> same_topology D b m
   end.
 
 Lemma frun_step h f i m :
   consistent h -> In (i, m) h -> Inv h f ->
-  Inv h (frun D C fuel f i m) /\ f_last D (frun D C fuel f i m) = Some (run D C fuel (f_opts D f) m) /\
+  Inv h (frun D C fuel f i m) /\
+  conf_state D (frun D C fuel f i m) = fresh_state (run D C fuel (f_opts D f) m) /\
   f_opts D (frun D C fuel f i m) = f_opts D f.
 Proof.
-  intros [Hc Hw] Hin HI. unfold frun, Inv in *. destruct (f_mol D f) as [[i' b]|]; simpl.
+  intros [Hc Hw] Hin HI. unfold frun, same_mol, Inv in *. destruct (f_mol D f) as [i'|] eqn:Em.
   - destruct (i =? i') eqn:E.
-    + apply Z.eqb_eq in E. subst i'. split; [|split; [|reflexivity]].
-      * intros m' Hm'. apply HI. exact Hm'.
-      * rewrite with_positions_id; [reflexivity | apply (Hw i); exact Hin | apply HI; exact Hin].
-    + split; [|split; [|reflexivity]].
-      * intros m' Hm'. apply (Hc i); assumption.
-      * rewrite with_positions_id; [reflexivity | apply (Hw i); exact Hin | apply same_topology_refl].
-  - split; [|split; [|reflexivity]].
-    + intros m' Hm'. apply (Hc i); assumption.
-    + rewrite with_positions_id; [reflexivity | apply (Hw i); exact Hin | apply same_topology_refl].
+    + apply Z.eqb_eq in E. subst i'. destruct HI as (b & Hb & HI).
+      unfold iterate_conf, reset_conf. cbn [f_tables f_opts f_mol f_level_shells f_past f_cur f_exn]. rewrite Hb.
+      rewrite (with_positions_id b m (Hw i m Hin) (HI m Hin)).
+      destruct (run D C fuel (f_opts D f) m) as [st|e]; unfold conf_state, fresh_state; simpl; rewrite ?Em.
+      * split; [exists b; split; [reflexivity|exact HI] | split; reflexivity].
+      * split; [exists b; split; [assumption || reflexivity|exact HI] | split; reflexivity].
+    + unfold iterate_conf, initialize_mol, reset_mol, reset_conf. cbn [f_tables f_opts f_mol f_level_shells f_past f_cur f_exn].
+      rewrite (with_positions_id m m (Hw i m Hin) (same_topology_refl m)).
+      destruct (run D C fuel (f_opts D f) m) as [st|e]; unfold conf_state, fresh_state; simpl.
+      * split; [exists m; split; [reflexivity | intros m' Hm'; apply (Hc i); assumption] | split; reflexivity].
+      * split; [exists m; split; [reflexivity | intros m' Hm'; apply (Hc i); assumption] | split; reflexivity].
+  - unfold iterate_conf, initialize_mol, reset_mol, reset_conf. cbn [f_tables f_opts f_mol f_level_shells f_past f_cur f_exn].
+    rewrite (with_positions_id m m (Hw i m Hin) (same_topology_refl m)).
+    destruct (run D C fuel (f_opts D f) m) as [st|e]; unfold conf_state, fresh_state; simpl.
+    * split; [exists m; split; [reflexivity | intros m' Hm'; apply (Hc i); assumption] | split; reflexivity].
+    * split; [exists m; split; [reflexivity | intros m' Hm'; apply (Hc i); assumption] | split; reflexivity].
 Qed.
 
 Lemma frun_all_inv h : forall p f,
@@ -89,23 +308,38 @@ Proof.
   split; [exact H1 | rewrite H2; exact Ho].
 Qed.
 
-(* the result of the last run of ANY history equals the result of a fresh fingerprinter on the same input *)
+Lemma frun_all_snoc f p i m : frun_all D C fuel f (p ++ [(i, m)]) = frun D C fuel (frun_all D C fuel f p) i m.
+Proof. unfold frun_all. rewrite fold_left_app. reflexivity. Qed.
+
+(* the conformer-level state after the last run of ANY history is that of a fresh fingerprinter's run on the same input:
+   level_shells = {0: .., .., k: ..} of that run and nothing else, its past_substructs, its current_level, its exception *)
 Theorem history_independent (o : opts) (p : list (Z * mol D)) (i : Z) (m : mol D) :
   consistent (p ++ [(i, m)]) ->
-  f_last D (frun_all D C fuel (new_fprinter D o) (p ++ [(i, m)])) = Some (run D C fuel o m).
+  conf_state D (frun_all D C fuel (new_fprinter D o) (p ++ [(i, m)])) = fresh_state (run D C fuel o m)
+  /\ f_opts D (frun_all D C fuel (new_fprinter D o) (p ++ [(i, m)])) = o.
 Proof.
-  intro Hc.
-  assert (Happ : frun_all D C fuel (new_fprinter D o) (p ++ [(i, m)])
-                 = frun D C fuel (frun_all D C fuel (new_fprinter D o) p) i m).
-  { unfold frun_all. rewrite fold_left_app. reflexivity. }
-  rewrite Happ.
+  intro Hc. rewrite frun_all_snoc.
   destruct (frun_all_inv (p ++ [(i, m)]) p (new_fprinter D o) Hc) as [HI Ho].
   - intros x Hx. apply in_or_app. left. exact Hx.
   - exact I.
-  - destruct (frun_step (p ++ [(i, m)]) (frun_all D C fuel (new_fprinter D o) p) i m Hc) as (_ & Hl & _).
+  - destruct (frun_step (p ++ [(i, m)]) (frun_all D C fuel (new_fprinter D o) p) i m Hc) as (_ & Hl & Ho').
     + apply in_or_app. right. left. reflexivity.
     + exact HI.
-    + rewrite Hl, Ho. reflexivity.
+    + rewrite Hl, Ho', Ho. split; reflexivity.
+Qed.
+
+Lemma fquery_ext (f g : fprinter D) counts bits req mask :
+  f_opts D f = f_opts D g -> conf_state D f = conf_state D g ->
+  fquery D f counts bits req mask = fquery D g counts bits req mask.
+Proof.
+  unfold conf_state. intros _ H. inversion H as [[H1 H2 H3 H4]]. unfold fquery, fshells. rewrite H1, H3. reflexivity.
+Qed.
+
+Lemma consistent_last p i m : consistent (p ++ [(i, m)]) -> consistent [(i, m)].
+Proof.
+  intros [H1 H2]. split.
+  - intros j a b [Ha|[]] [Hb|[]]. inversion Ha; inversion Hb; subst. apply same_topology_refl.
+  - intros j a [Ha|[]]. inversion Ha; subst. eapply H2. apply in_or_app. right. left. reflexivity.
 Qed.
 
 (* every query after any history = the query on a fresh object *)
@@ -114,15 +348,92 @@ Corollary query_history_independent (o : opts) p i m counts bits req mask :
   fquery D (frun_all D C fuel (new_fprinter D o) (p ++ [(i, m)])) counts bits req mask
   = fquery D (frun D C fuel (new_fprinter D o) i m) counts bits req mask.
 Proof.
-  intro Hc. unfold fquery.
-  assert (Ho : f_opts D (frun_all D C fuel (new_fprinter D o) (p ++ [(i, m)])) = o).
-  { destruct (frun_all_inv (p ++ [(i, m)]) (p ++ [(i, m)]) (new_fprinter D o) Hc (fun x H => H) I) as [_ H]. exact H. }
-  rewrite Ho, (history_independent o p i m Hc).
-  assert (Hc1 : consistent [(i, m)]).
-  { destruct Hc as [H1 H2]. split.
-    - intros j a b [Ha|[]] [Hb|[]]. inversion Ha; inversion Hb; subst. apply same_topology_refl.
-    - intros j a [Ha|[]]. inversion Ha; subst. eapply H2. apply in_or_app. right. left. reflexivity. }
-  destruct (frun_step [(i, m)] (new_fprinter D o) i m Hc1 (or_introl eq_refl) I) as (_ & Hl & Ho1).
-  rewrite Hl, Ho1. reflexivity.
+  intro Hc. destruct (history_independent o p i m Hc) as [Hs Ho].
+  destruct (history_independent o [] i m (consistent_last p i m Hc)) as [Hs1 Ho1]. simpl in Hs1, Ho1.
+  apply fquery_ext; [rewrite Ho, Ho1; reflexivity | rewrite Hs, Hs1; reflexivity].
+Qed.
+
+(* ... and, when the run succeeds, the query of Model/E3FP.v on that run's state *)
+Corollary query_history_is_run_query (o : opts) p i m st counts bits req mask :
+  consistent (p ++ [(i, m)]) -> run D C fuel o m = Ok st ->
+  fquery D (frun_all D C fuel (new_fprinter D o) (p ++ [(i, m)])) counts bits req mask
+  = fingerprint_query o counts bits st req mask.
+Proof.
+  intros Hc Hr. destruct (history_independent o p i m Hc) as [Hs Ho].
+  rewrite Hr in Hs. unfold conf_state, fresh_state in Hs. inversion Hs as [[H1 H2 H3 H4]].
+  rewrite <- Ho at 2. apply holds_query. destruct (run_shaped _ _ _ Hr) as [S1 S2]. unfold holds_run, shaped. repeat split; assumption.
 Qed.
 End History.
+
+(* ---- witnesses on the executed instance (Z coordinates, the shipped constants, Exec/RunM1.v's fuel) ------------ *)
+From E3FP Require Import Exec.RunM1.
+
+Definition w_atom (i num mass : Z) (x : Z) : atom ZD :=
+  mkatom ZD i num 1 1 1 0 mass 0 0 0 (mkvec (D:=ZD) x 0 0).
+Definition w_mol (num2 mass2 : Z) : mol ZD :=
+  mkmol ZD [w_atom 0 6 12 0; w_atom 1 num2 mass2 90000] [(0, 1, BtSingle)] 4294967296.
+Definition w_opts : opts := mkopts 2 1718 1000 true true true false true.
+
+(* three atoms C-O-N on a line (unit 2^16 per Angstrom): at 1.5 A spacing the run reaches level 1, at ~6 A spacing
+   nothing is within the level-1 radius and the run stops at level 0 *)
+Definition w3 (x1 x2 : Z) : mol ZD :=
+  mkmol ZD [w_atom 0 6 12 0; w_atom 1 8 15 x1; w_atom 2 7 14 x2] [(0, 1, BtSingle); (1, 2, BtSingle)] 4294967296.
+Definition w3_opts : opts := mkopts 5 1718 1000 true true true false true.
+
+(* The full statement (no hypothesis on the history) is FALSE of the faithful model: a molecule object edited in place
+   between two runs is fingerprinted with the tables cached for its identity.  Witness: C-O, then the same object with
+   the oxygen turned into sulfur. *)
+Lemma history_independent_refuted_w :
+  exists (h : list (Z * mol ZD)) (i : Z) (m : mol ZD),
+    result_eqb fp_obs_eqb
+      (fquery ZD (frun_allZ (new_fprinter ZD w_opts) (h ++ [(i, m)])) false 4294967296 None [])
+      (fquery ZD (frunZ (new_fprinter ZD w_opts) i m) false 4294967296 None []) = false.
+Proof. exists [(7, w_mol 8 15)], 7, (w_mol 16 32). vm_compute. reflexivity. Qed.
+
+Lemma consistent_two_conformers x1 x2 y1 y2 : consistent ZD [(7, w3 x1 x2); (7, w3 y1 y2)].
+Proof.
+  split.
+  - intros i a b Ha Hb. simpl in Ha, Hb.
+    destruct Ha as [Ha|[Ha|[]]]; destruct Hb as [Hb|[Hb|[]]]; inversion Ha; inversion Hb; subst; split; reflexivity.
+  - intros i a Ha. simpl in Ha. destruct Ha as [Ha|[Ha|[]]]; inversion Ha; subst;
+      unfold wf_mol; simpl; repeat constructor; simpl; intuition discriminate.
+Qed.
+
+(* WITHOUT the clearing of level_shells in reset_conf (the seeded-bug variant frun_noreset) the statement fails even
+   on consistent histories: two conformers of one molecule object, the second stops at level 0 < L = 1; the key 1 of
+   the first conformer is still in the dictionary, so the explicit query for level 1 returns the FIRST conformer's
+   shells, which is not what a fresh object (or the faithful model after the same history) answers. *)
+Lemma stale_levels_without_reset_w :
+  exists (o : opts) (i : Z) (mA mB : mol ZD) (L : Z),
+    let f1 := frun_noresetZ (new_fprinter ZD o) i mA in
+    let f2 := frun_noresetZ f1 i mB in
+    consistent ZD [(i, mA); (i, mB)] /\
+    f_exn ZD f2 = None /\ f_cur ZD f2 = Some 0 /\ 0 < L /\
+    dmem L (f_level_shells ZD f2) = true /\
+    fshells ZD f2 (Some L) = fshells ZD f1 (Some L) /\
+    result_eqb fp_obs_eqb (fquery ZD f2 false 1024 (Some L) [])
+                          (fquery ZD (frunZ (new_fprinter ZD o) i mB) false 1024 (Some L) []) = false /\
+    result_eqb fp_obs_eqb (fquery ZD (frun_allZ (new_fprinter ZD o) [(i, mA); (i, mB)]) false 1024 (Some L) [])
+                          (fquery ZD (frunZ (new_fprinter ZD o) i mB) false 1024 (Some L) []) = true.
+Proof.
+  exists w3_opts, 7, (w3 98304 196608), (w3 400000 800000), 1.
+  split; [apply consistent_two_conformers|].
+  vm_compute. repeat split; reflexivity.
+Qed.
+
+(* non-vacuity: a history that reuses a molecule object with another conformer, and another molecule in between, is consistent *)
+Lemma consistent_history_exists_w :
+  consistent ZD ([(7, w_mol 8 15); (9, w_mol 16 32)] ++ [(7, mkmol ZD [w_atom 0 6 12 5; w_atom 1 8 15 70000] [(0, 1, BtSingle)] 4294967296)]).
+Proof.
+  split.
+  - intros i a b Ha Hb. simpl in Ha, Hb.
+    destruct Ha as [Ha|[Ha|[Ha|[]]]]; destruct Hb as [Hb|[Hb|[Hb|[]]]]; inversion Ha; inversion Hb; subst;
+      try discriminate; split; reflexivity.
+  - intros i a Ha. simpl in Ha. destruct Ha as [Ha|[Ha|[Ha|[]]]]; inversion Ha; subst;
+      unfold wf_mol; simpl; repeat constructor; simpl; intuition discriminate.
+Qed.
+
+(* non-vacuity of frun_levels_exact / fquery_eq_fingerprint_query: a run that returns normally, on a stale object *)
+Lemma frun_ok_exists_w :
+  f_exn ZD (frunZ (frunZ (new_fprinter ZD w3_opts) 7 (w3 98304 196608)) 7 (w3 400000 800000)) = None.
+Proof. vm_compute. reflexivity. Qed.
